@@ -43,7 +43,10 @@ type ClientCfg struct {
 	// "port-option" = WithPort(2525) followed by WithTLSPortPolicy; "twice" = WithTLSPortPolicy
 	// with a weaker policy (which moves the port) followed by WithTLSPortPolicy. In every case
 	// the policy in force is TLSPolicy.
-	PolicyVia   string `json:"policyVia,omitempty"`
+	PolicyVia string `json:"policyVia,omitempty"`
+	// Sibling: another Client, for this host, is created right after this one and never used (a
+	// process that talks to several servers); nothing of it may leak into this Client.
+	Sibling     string `json:"sibling,omitempty"`
 	Debug       bool   `json:"debug,omitempty"`
 	LogAuthData bool   `json:"logAuthData,omitempty"`
 	Logger      string `json:"logger,omitempty"` // capture | std | json
@@ -164,6 +167,9 @@ func BuildClient(c ClientCfg, dial mail.DialContextFunc, logger mlog.Logger) (*m
 	cl, err := mail.NewClient(c.host(), opts...)
 	if err == nil && after != nil {
 		after(cl)
+	}
+	if err == nil && c.Sibling != "" {
+		_, _ = mail.NewClient(c.Sibling, mail.WithDialContextFunc(dial), mail.WithTLSPolicy(mail.TLSMandatory))
 	}
 	return cl, err
 }
